@@ -304,6 +304,8 @@ def obligations(tier, win=False, prefix='agg'):
     for n in range(1, 5):
         add('h_agg_float', n, 'mean+stdev,n=%d' % n, fns=['mean', 'stdev'], witness=W)
         add('h_agg_float', n, 'all6,n=%d,floats' % n, fns=['sum', 'mean', 'min', 'max', 'count', 'stdev'], witness=[0.5, -2.0, 4.0, 0.25], apply=True)
+        if n >= 2:
+            add('h_agg_float', n, 'mean+stdev,n=%d,large offset' % n, fns=['mean', 'stdev'], witness=[100000001.0, 100000002.0, 100000004.0, 100000008.0])
     add('h_agg_float', 3, 'mean+stdev,K=2,n=3', K=2, nones=False, fns=['mean', 'stdev'], witness=W)
     obs.append(dict(name='%s[two value columns, same / missing names]' % prefix, fn='h_same_name', config={'win': win}, budget=120 if q else 300,
                     bounds='4 rows, every key pattern x None mask; two different value columns carrying the same name, no name, or different names, each aggregated twice',
